@@ -490,6 +490,28 @@ theorem open_normalises_key (K : Keyed) (k : KeyObj) (cap : Nat) (ts : List Toke
     (ts.foldl (View.offer K) (View.open k cap)) = ts.foldl (View.offer K) (View.open k.pub cap) :=
   ⟨rfl, rfl, rfl, rfl⟩
 
+/-! ### persistence: restarts of the identity manager do not smuggle anything into a tree -/
+
+/-- After ANY history of `substantiate` (arbitrary bytes), `add_credential` (arbitrary tokens) and restarts of the
+    manager on its database — a restart makes the stored rows the elements of a new tree without any check — every
+    element, and every stored row, is an offered token that is signed by the tree key, digest sized and connected to
+    genesis through such tokens; what waits was offered.  (Only elements are ever stored: a manager that also stored
+    waiting tokens would turn a dangling token into an element at the next restart, and this invariant would fail.) -/
+theorem restart_sound (evs : List PEvent) :
+    (∀ e ∈ (Pseudo.run C g cap evs).tree.els, InTree C g (evs.flatMap (PEvent.offers C.sigLen)) e) ∧
+    (∀ d ∈ (Pseudo.run C g cap evs).db, InTree C g (evs.flatMap (PEvent.offers C.sigLen)) d) ∧
+    (∀ u ∈ (Pseudo.run C g cap evs).tree.unc, Off (evs.flatMap (PEvent.offers C.sigLen)) u) :=
+  ⟨(run_inv evs).els, (run_inv evs).db, (run_inv evs).unc⟩
+
+/-- `Token.__init__`: exactly one of content / content_hash is accepted (both, or neither, is an error), and whatever
+    it builds carries no content or content that hashes to its pointer -/
+theorem init_bound (prev sig : Bytes) (content chash : Option Bytes) :
+    (content.isSome = chash.isSome → Token.init C prev content chash sig = none) ∧
+    ∀ t, Token.init C prev content chash sig = some t → t.contentOk C := by
+  cases content <;> cases chash <;> simp [Token.init]
+  · exact (constructors_bound (C := C) prev [] _ sig).2
+  · exact (constructors_bound (C := C) prev _ [] sig).1
+
 /-! ### the model's decisions ARE the source's decisions (re-proved against the source on every run)
 
   tools/gen_c16.py translates the `if` / `return` / `break` structure of `TokenTree.gather_token`, of the loop body of
@@ -569,11 +591,12 @@ theorem walk_follows_act (els : List Token) (n : Nat) (cur : Token) :
       | _ => none := by
   rw [walk]
   unfold walkAct
-  by_cases hv : (!cur.valid C) = true
-  · simp [hv]
-  · by_cases hg : (cur.prev == g) = true
-    · simp [hv, hg]
-    · cases hl : lookup C els cur.prev <;> simp [hv, hg]
+  by_cases hv : (!(cur.chash.length == g.length && cur.valid C)) = true
+  · rw [if_pos hv, if_pos hv]
+  · rw [if_neg hv, if_neg hv]
+    by_cases hg : (cur.prev == g) = true
+    · simp [hg]
+    · cases hl : lookup C els cur.prev <;> simp [hg]
 
 /-- receive_content: content is set exactly on the path where the hashes were compared equal -/
 theorem receive_content_matches_source (t : Token) (c : Bytes) :
